@@ -127,14 +127,50 @@ def object_histories(ctx):
                               per_rung=ctx.pick(3, 6))
     ks, bl_rule = blowup_rungs(ctx)
     hs += blowup_histories(rnd, ks, ctx.pick(2, 4))
+    mh, mx_rule = mixed_histories(ctx)
+    hs += mh
     rule = ("OBJECT streams (real engine against the reference semantics of the tree): sessions = all trees of size <= %d x all words of length <= 3, "
             "one process per 30 patterns with structurally equal operator sub-trees being one Python object within and across patterns, in "
             "enumeration order and shuffled, every call repeated on the same objects; variants = all trees of size <= %d over the alphabets %s "
             "with one-item operands written bare and as lists; edits = %d random histories of 2-4 patterns on ONE list object edited in place "
             "(slice / pop+append / pop(0)+insert / clear+extend), random alphabet / spelling / sharing; ladders = sequence length %s, items in "
             "the pattern list %s, operator nesting 10, 30, 100 (deeper: Python recursion in the engine's construction)"
-            % (ctx.pick(4, 5), ctx.pick(3, 4), ", ".join(rx.ALPHABETS), ctx.pick(400, 6000), ctx.pick("10^2..10^4", "10^2..10^6"), ctx.pick("10..10^3", "10..10^4")) + "; " + bl_rule)
+            % (ctx.pick(4, 5), ctx.pick(3, 4), ", ".join(rx.ALPHABETS), ctx.pick(400, 6000), ctx.pick("10^2..10^4", "10^2..10^6"), ctx.pick("10..10^3", "10..10^4")) + "; " + bl_rule + "; " + mx_rule)
     return hs, rule
+
+
+def mixed_histories(ctx):
+    """alphabet-WIDTH ladder over MIXED alphabets (gen/rx.py `mixed/<n>/<seed>/<pct>`): n pairwise disjoint atoms, pct % of them
+    user-defined Predicate objects (integer interval / string prefix / tuple tag) and the others plain values; patterns = small
+    random trees with leaves replaced by unions of m atoms (m = the rung); sequences walk the position automaton (reference),
+    are cut before the end, get a foreign item, and every call runs twice on the same objects"""
+    rnd = ctx.rng("mixed")
+    base = ctx.pick((2, 3, 4, 5, 6, 8, 12, 16, 32, 64, 128), (2, 3, 4, 5, 6, 7, 8, 9, 10, 12, 16, 24, 32, 64, 128, 256, 512, 1000, 3000))
+    top = ctx.pick(300, 3000)
+    novel = sorted(set(srcdict.novel_rungs(2, top)) - set(base))[:24]
+    per = ctx.pick(8, 24)
+    hs = []
+    for m in sorted(set(base) | set(novel)):
+        for i in range(per if m <= 16 else max(2, per // 2) if m <= 32 else 2):
+            n = m + rnd.choice((0, 1, 3))
+            alphabet = "mixed/%d/%d/%d" % (n, rnd.randrange(10 ** 6), (15, 50, 0, 100, 15, 50, 30, 5)[i % 8])
+            r = rx.wide_rx(rnd, n, m, flat=m > 16)
+            P = rx.PosRef(r)
+            ws = []
+            for _ in range(4 if m <= 32 else 1):
+                w = rx.walk_word(rnd, P, rnd.randint(1, 7), n + 1, noise=0.1)
+                ws += [w, w[:-1], w + [rnd.randint(1, n + 1)]]
+            seen, uniq = set(), []
+            for w in ws:
+                if tuple(w) not in seen:
+                    seen.add(tuple(w))
+                    uniq.append(w)
+            hs.append({"kind": "ladder/alphabet", "rung": m, "alphabet": alphabet, "spelling": rnd.choice(rx.SPELLINGS), "sharing": rnd.choice(("none", "pattern")), "heavy": m >= 32,
+                       "steps": [{"ast": r, "how": "new", "calls": obj_streams.two_pass([[op, w] for w in uniq for op in OPS])}]})
+    return hs, ("alphabet width = mixed alphabets of m..m+3 pairwise disjoint atoms for m = %s%s, 0/5/15/30/50/100 %% of them user-defined Predicate objects (integer "
+                "interval, string prefix, tuple tag) and the others plain strings / integers / tuples, %d patterns per rung (half of it at 32, 2 beyond; no repetition operators beyond 16: the engine's subset construction takes seconds there): small random "
+                "trees whose leaves are unions of m atoms (left-nested or balanced), sequences walking the position automaton, cut, extended "
+                "and with a foreign item, every call twice" % ("/".join(map(str, base)), " (source-literal rungs: %s)" % novel if novel else "", per))
 
 
 def blowup_rungs(ctx):
